@@ -1198,6 +1198,8 @@ class Evaluator:
                 return StrV(obj.s[slice(g(idx.start), g(idx.stop), g(idx.step))])
             k = self.concrete_int(idx)
             return StrV(obj.s[k])
+        if isinstance(obj, ObjV) and isinstance(obj.attrs.get("__getitem__"), PyFuncV):
+            return obj.attrs["__getitem__"].fn(self, [idx], {}, fr, node)
         if isinstance(obj, ObjV):
             m = obj.cls.find_method("__getitem__")
             if m is None:
